@@ -1,6 +1,7 @@
 package main
 
 import (
+	metav1 "k8s.io/apimachinery/pkg/apis/meta/v1"
 	"sync/atomic"
 	"context"
 	"fmt"
@@ -49,6 +50,28 @@ var joinHook func()
 // changes quickly, so that the join's monitor falls behind and loses events.
 var joinSlow atomic.Int64
 
+// joinSlowAccept, when positive, makes the filters a gated filter function
+// returns take that long per Accept (virtual time): the destination node is
+// then busy for a while with every Refilter.
+var joinSlowAccept atomic.Int64
+
+type slowAccept struct {
+	inner filter.ComparableFilter
+	d     time.Duration
+}
+
+func (s *slowAccept) Accept(o metav1.Object) bool {
+	time.Sleep(s.d)
+	return s.inner.Accept(o)
+}
+
+func (s *slowAccept) Equals(other filter.Filter) bool {
+	if o, ok := other.(*slowAccept); ok {
+		return s.inner.Equals(o.inner)
+	}
+	return s.inner.Equals(other)
+}
+
 func gated[T any](base func(...T) filter.ComparableFilter) func(...T) filter.ComparableFilter {
 	var first atomic.Bool
 	return func(xs ...T) filter.ComparableFilter {
@@ -58,6 +81,9 @@ func gated[T any](base func(...T) filter.ComparableFilter) func(...T) filter.Com
 		}
 		if d := joinSlow.Load(); d > 0 {
 			time.Sleep(time.Duration(d))
+		}
+		if d := joinSlowAccept.Load(); d > 0 {
+			return &slowAccept{f, time.Duration(d)}
 		}
 		return f
 	}
@@ -391,6 +417,28 @@ func runC09(c *Ctx) {
 						time.Sleep(6 * time.Second)
 						joinSlow.Store(0)
 						verify("cycle 2 after a burst of source changes against a slow selection function")
+						// two source changes 100 ms apart while every Accept of the selection
+						// filter takes 300 ms: the second Refilter reaches a destination node
+						// that is busy for seconds; it is the second change that counts
+						joinSlowAccept.Store(int64(300 * time.Millisecond))
+						srcSrv.Put(proto(jd.srcKind, 1, 1, 1))
+						time.Sleep(100 * time.Millisecond)
+						srcSrv.Put(proto(jd.srcKind, 1, 1, 2))
+						time.Sleep(30 * time.Second)
+						verifySlow := func(stage string) {
+							// (the installed filter is still the slow one: give it its time)
+							time.Sleep(30 * time.Second)
+							verify(stage)
+						}
+						verifySlow("cycle 2 after two quick source changes against a destination node busy with a slow filter")
+						// back to filters that take no time: the selection changes and changes
+						// back, so that the slow filter object is replaced
+						joinSlowAccept.Store(0)
+						srcSrv.Put(proto(jd.srcKind, 1, 1, 1)) // (variant 1 selects differently from variant 2 for every source kind)
+						time.Sleep(30 * time.Second)
+						srcSrv.Put(proto(jd.srcKind, 1, 1, 2))
+						time.Sleep(30 * time.Second)
+						verify("cycle 2 after the slow filter was replaced")
 					}
 					steps := 6 + c.Rng.Intn(8)
 					for s := 0; s < steps; s++ {
@@ -428,6 +476,15 @@ func runC09(c *Ctx) {
 					}
 					srcSrv.Put(proto(jd.srcKind, 1, 1, 1))
 					verify(fmt.Sprintf("cycle %d a source selects again", cycle))
+					// ... enters graceful deletion (a deletionTimestamp, held by a finalizer)
+					// and changes what it selects while terminating: it is still a current
+					// source object
+					for _, v := range []int{2, 1} {
+						tp := proto(jd.srcKind, 1, 1, v)
+						tp.Terminating = true
+						srcSrv.Put(tp)
+						verify(fmt.Sprintf("cycle %d a terminating source changes its selection (variant %d)", cycle, v))
+					}
 					// ... is deleted, and comes back exactly as it was
 					srcSrv.Delete(1, 1)
 					verify(fmt.Sprintf("cycle %d the selecting source is deleted", cycle))
@@ -475,6 +532,13 @@ func runC09(c *Ctx) {
 						if !isClosed(j2.done()) {
 							problems = append(problems, "the second join is not done after Close()")
 						}
+					}
+					// (the count is taken while no list or watch connect of a base controller
+					// is in flight: a periodic relist — cycle 2 lets minutes of virtual time
+					// pass — brings helper goroutines of its own for as long as it lasts)
+					for k := 0; k < 100 && srcSrv.InFlight()+dstSrv.InFlight() > 0; k++ {
+						time.Sleep(500 * time.Millisecond)
+						sched.Settle()
 					}
 					if !baseValid {
 						base = sched.LibraryGoroutines()
